@@ -947,6 +947,123 @@ ClearStatuses(m) == [m EXCEPT !.succ = {}, !.fail = {},
                               !.hst = [r \in Regions |-> TSNone], !.sst = [r \in Regions |-> TSNone]]
 
 ---------------------------------------------------------------------------
+(* Serialization (composite*.inl deepSave* / deepLoad*, root_0.inl, root_1.inl).                     *)
+(* A buffer is a sequence of bits, packed LSB-first into bytes by BitWriteStreamT.                   *)
+
+BitsOf(v, w)   == [i \in 1 .. w |-> (v \div (2 ^ (i - 1))) % 2]
+WidthBits(s)   == BitContain(St[s].width)
+
+RECURSIVE SaveActive(_, _), SaveResumable(_, _), SaveKids(_, _, _, _)
+
+SaveRes(m, s) == LET c == St[s].compo IN
+                 IF m.res[c] # 0 THEN <<1>> \o BitsOf(m.res[c] - 1, WidthBits(s)) ELSE <<0>>
+
+\* kids of s from i on; mode -1: all active (orthogonal), 0: all resumable-only, n > 0: only kid n active
+SaveKids(m, s, i, mode) ==
+    IF i > St[s].width THEN <<>>
+    ELSE (IF mode = 0 - 1 \/ mode = i THEN SaveActive(m, Kid(s, i)) ELSE SaveResumable(m, Kid(s, i)))
+         \o SaveKids(m, s, i + 1, mode)
+
+SaveActive(m, s) ==
+    CASE St[s].kind = "S" -> <<>>
+      [] St[s].kind = "O" -> SaveKids(m, s, 1, 0 - 1)
+      [] St[s].kind = "C" -> BitsOf(m.act[St[s].compo] - 1, WidthBits(s)) \o SaveRes(m, s)
+                             \o SaveKids(m, s, 1, m.act[St[s].compo])
+
+SaveResumable(m, s) ==
+    CASE St[s].kind = "S" -> <<>>
+      [] St[s].kind = "O" -> SaveKids(m, s, 1, 0)
+      [] St[s].kind = "C" -> SaveRes(m, s) \o SaveKids(m, s, 1, 0)
+
+EncodeBits(m) == IF On(m) THEN <<1>> \o SaveActive(m, 1) ELSE <<0>>
+
+BYTE_COUNT == Contain(SERIAL_BITS, 8)
+PackBytes(bits) ==
+    [b \in 1 .. BYTE_COUNT |->
+        LET RECURSIVE V(_)
+            V(i) == IF i > 8 THEN 0
+                    ELSE (IF (b - 1) * 8 + i <= Len(bits) THEN bits[(b - 1) * 8 + i] * (2 ^ (i - 1)) ELSE 0) + V(i + 1)
+        IN V(1)]
+UnpackBytes(bytes) == [i \in 1 .. Len(bytes) * 8 |-> (bytes[((i - 1) \div 8) + 1] \div (2 ^ ((i - 1) % 8))) % 2]
+
+Encode(m) == PackBytes(EncodeBits(m))
+
+ReadBits(bits, pos, w) ==
+    LET RECURSIVE V(_)
+        V(i) == IF i > w THEN 0 ELSE bits[pos + i - 1] * (2 ^ (i - 1)) + V(i + 1)
+    IN V(1)
+
+RECURSIVE LoadRequested(_, _, _, _), LoadResumable(_, _, _, _), LoadKids(_, _, _, _, _, _)
+
+\* all return <<m, pos>>
+LoadKids(m, s, bits, pos, i, mode) ==
+    IF i > St[s].width THEN <<m, pos>>
+    ELSE LET r == IF mode = 0 - 1 \/ mode = i THEN LoadRequested(m, Kid(s, i), bits, pos)
+                  ELSE LoadResumable(m, Kid(s, i), bits, pos)
+         IN LoadKids(r[1], s, bits, r[2], i + 1, mode)
+
+LoadRequested(m, s, bits, pos) ==
+    CASE St[s].kind = "S" -> <<m, pos>>
+      [] St[s].kind = "O" -> LoadKids(m, s, bits, pos, 1, 0 - 1)
+      [] St[s].kind = "C" ->
+            LET c   == St[s].compo  w == WidthBits(s)
+                rq  == ReadBits(bits, pos, w) + 1
+                has == bits[pos + w] = 1
+                rs  == IF has THEN ReadBits(bits, pos + w + 1, w) + 1 ELSE 0
+                m1  == [m EXCEPT !.req[c] = rq, !.res[c] = rs]
+            IN LoadKids(m1, s, bits, pos + w + 1 + (IF has THEN w ELSE 0), 1, rq)
+
+LoadResumable(m, s, bits, pos) ==
+    CASE St[s].kind = "S" -> <<m, pos>>
+      [] St[s].kind = "O" -> LoadKids(m, s, bits, pos, 1, 0)
+      [] St[s].kind = "C" ->
+            LET c   == St[s].compo  w == WidthBits(s)
+                has == bits[pos] = 1
+                rs  == IF has THEN ReadBits(bits, pos + 1, w) + 1 ELSE 0
+                m1  == [m EXCEPT !.res[c] = rs]
+            IN LoadKids(m1, s, bits, pos + 1 + (IF has THEN w ELSE 0), 1, 0)
+
+\* R_::load (active instance) : the loaded resumable marks survive the change
+LoadActive(m, bits) ==
+    LET m0 == [ClearRequests(m) EXCEPT !.res = [c \in Compos |-> 0]]
+        m1 == LoadRequested(m0, 1, bits, 2)[1]
+        m2 == [m1 EXCEPT !.q = <<>>, !.plans = [r \in Regions |-> <<>>], !.pex = {}, !.succ = {}, !.fail = {},
+                         !.hst = [r \in Regions |-> TSNone], !.sst = [r \in Regions |-> TSNone],
+                         !.tt = [s \in States |-> 0], !.prev = <<>>]
+        m3 == DeepChangeToRequested(NewControl(m2), 1)
+    IN UpdateActivity([m3 EXCEPT !.res = m1.res])
+
+\* RV_<Manual>::loadEnter (inactive instance)
+LoadEnter(m, bits) ==
+    LET m1 == LoadRequested(m, 1, bits, 2)[1]
+        m2 == DeepEnter(NewControl(m1), 1)
+    IN UpdateActivity([m2 EXCEPT !.res = m1.res])
+
+---------------------------------------------------------------------------
+(* Replay (root_0.inl replayTransitions / applyRequests, root_1.inl replayEnter)                     *)
+
+Truncate(seq, n) == IF Len(seq) <= n THEN seq ELSE SubSeq(seq, 1, n)
+
+Replay(m, list) ==            \* m.ok = return value
+    LET m0 == [m EXCEPT !.tt = [s \in States |-> 0], !.prev = <<>>] IN
+    IF Len(list) = 0 THEN [m0 EXCEPT !.ok = FALSE]
+    ELSE LET m1 == ApplyAll(NewControl(m0), list, 1) IN
+         IF RegDiffers(m1, BackUp(m0))
+         THEN LET m2 == DeepChangeToRequested([m1 EXCEPT !.prev = Truncate(list, HistCapacity)], 1)
+              IN [UpdateActivity(ClearRequests(m2)) EXCEPT !.ok = TRUE]
+         ELSE [m1 EXCEPT !.ok = FALSE]
+
+ReplayEnter(m, list) ==
+    LET m0 == [m EXCEPT !.tt = [s \in States |-> 0]] IN
+    IF Len(list) = 0 THEN [m0 EXCEPT !.ok = FALSE]
+    ELSE LET m1 == DeepRequestChange(NewControl(m0), 1, [k |-> "change", i |-> 0])
+             m2 == ApplyAll(m1, list, 1)
+         IN IF RegDiffers(m2, BackUp(m1))
+            THEN LET m3 == DeepEnter([m2 EXCEPT !.prev = Truncate(list, HistCapacity)], 1)
+                 IN [UpdateActivity(ClearRequests(m3)) EXCEPT !.ok = TRUE]
+            ELSE [m2 EXCEPT !.ok = FALSE]
+
+---------------------------------------------------------------------------
 (* Public API: one operator per call.  `m` carries the persistent state,   *)
 (* `sc` the script for this call.                                          *)
 
@@ -992,6 +1109,16 @@ ApiPlanAppend(m, r, o, d, k, p, sc) == ApplyOp(BeginCall(m, sc), "update", <<"pl
 ApiPlanClear(m, r, sc)              == ApplyOp(BeginCall(m, sc), "update", <<"plan_clear", r>>)
 ApiPlanRemove(m, r, i, sc)          == ApplyOp(BeginCall(m, sc), "update", <<"plan_remove", r, i>>)
 
+ApiSave(m, sc) == BeginCall(m, sc)
+
+ApiLoad(m, bytes, sc) ==
+    LET m0 == BeginCall(m, sc)  bits == UnpackBytes(bytes) IN
+    IF bits[1] = 1 THEN (IF On(m0) THEN LoadActive(m0, bits) ELSE LoadEnter(m0, bits))
+    ELSE IF On(m0) /\ Cfg.manual THEN FinalExit(m0) ELSE m0
+
+\* <<"replay", source slot, n, o1, d1, k1, p1, ...>>
+ListOf(a) == [i \in 1 .. a[3] |-> <<a[4 * i], a[4 * i + 1], a[4 * i + 2], a[4 * i + 3]>>]
+
 \* dispatch on a label <<name, args...>> as logged by the executor
 Step(m, a, sc) ==
     CASE a[1] = "enter"   -> ApiEnter(m, sc)
@@ -1010,5 +1137,10 @@ Step(m, a, sc) ==
       [] a[1] = "pa"      -> ApiPlanAppend(m, a[2], a[3], a[4], a[5], a[6], sc)
       [] a[1] = "pc"      -> ApiPlanClear(m, a[2], sc)
       [] a[1] = "pr"      -> ApiPlanRemove(m, a[2], a[3], sc)
+      [] a[1] = "save"    -> ApiSave(m, sc)
+      [] a[1] = "load"    -> ApiLoad(m, Tail(a), sc)
+      [] a[1] = "replay"  -> Replay(BeginCall(m, sc), ListOf(a))
+      [] a[1] = "replayenter" -> ReplayEnter(BeginCall(m, sc), ListOf(a))
+      [] a[1] = "copy"    -> BeginCall(m, sc)
 
 ===========================================================================
